@@ -11,7 +11,7 @@ META = {
     'explanation': 'Every value-level operation of scikit_tt.tensor_train.TT (full, matricize, element, +, -, scalar *, @, '
                    'transpose/conj/copy, constructors, 1-/2-norm, residual_error) is executed on cores whose entries are free '
                    'real/complex symbols and compared, entry by entry, with an index-loop dense oracle; the solver decides the '
-                   'polynomial identity for all entry values at each shape.',
+                   'polynomial identity for all entry values at each shape. np.isclose / np.allclose in the code are modelled as exact comparisons with their literal tolerances.',
     'bounds': {'quick': 'orders 1-3, mode sizes {1,2}, inner ranks {1,2}, real/complex/mixed; deterministic subset of the grid with all edge shapes',
                'thorough': 'orders 1-3 complete grid over mode sizes {1,2} and ranks {1,2}, plus order 4 / size 3 / rank 3 samples'},
     'outside': ['floating-point rounding', 'shapes beyond the grid', 'norm(p=2): Frobenius norm invariance under isometries is the '
